@@ -264,7 +264,7 @@ def ts(t):
         return f"({ts(t['a'])} extends {ts(t['b'])} ? {ts(t['x'])} : {ts(t['y'])})"
     if k == "mapped":
         opt = "?" if t.get("opt") else ""
-        return f"{{ [K in {ts(t['keys'])}]{opt}: {ts(t['v'])} }}"
+        return f"{{ [{t.get('kv', 'K')} in {ts(t['keys'])}]{opt}: {ts(t['v'])} }}"
     if k == "typeof":
         return f"typeof {t['n']}"
     if k == "enumref":
@@ -509,7 +509,9 @@ def write_evidence(prop, tier, coverage, wall, violations, assumptions, level="m
           "assumptions": assumptions, "wall_s": round(wall, 2), "violations": violations}
     if extra:
         ev.update(extra)
-    with open(os.path.join(EVID, f"{prop}.json"), "w") as f:
+    # a development run over a subset of the families (VERIF_FAMILIES) does not touch the evidence of the registered check
+    dest = os.path.join(WORK, f"devrun-{prop}.json") if os.environ.get("VERIF_FAMILIES") else os.path.join(EVID, f"{prop}.json")
+    with open(dest, "w") as f:
         json.dump(ev, f, indent=1)
 
 
